@@ -265,6 +265,25 @@ def check_cases(ctx, cases):
             return mh_obs(mh)
 
         route("stream", manual)
+
+        def manual_with_reads():
+            # every kind of digest is read after every chunk (and on a copy, which is then fed on):
+            # reading must not freeze anything
+            mh = hashutil.MultiHash(hash_names=shared_names, length=length)
+            side = None
+            for i, c in enumerate(split(data, case["chunks"])):
+                mh.update(c)
+                (mh.digest, mh.hexdigest, mh.bytehexdigest)[i % 3]()
+                if i == 0:
+                    side = (mh.copy(), data[len(c):])
+                    side[0].digest()
+            if side is not None:
+                side[0].update(side[1])
+                if mh_obs(side[0]) != mh_obs(mh):
+                    raise ValueError("copy-diverges")
+            return mh_obs(mh)
+
+        route("stream_with_reads", manual_with_reads)
         route("from_file", lambda: mh_obs(hashutil.MultiHash.from_file(io.BytesIO(data), hash_names=shared_names, length=length)))
         route("short_reads", lambda: mh_obs(hashutil.MultiHash.from_file(ShortReader(data, case["reads"]), hash_names=shared_names, length=length)))
         path = os.path.join(tmpdir(), "f%d" % (ci % 4))
@@ -286,7 +305,7 @@ def check_cases(ctx, cases):
         # ---------------- oracle on the implementation: every route == hashlib, sha1_git == git blob id
         must_fail_nolen = any(x.endswith("_git") for x in names) and length is None
         for tag, (st, val) in obs.items():
-            uses_len = tag in ("stream", "from_file", "short_reads")
+            uses_len = tag in ("stream", "stream_with_reads", "from_file", "short_reads")
             if not known or (uses_len and must_fail_nolen):
                 if st != "err":
                     ctx.fail(case, f"route {tag}: an unknown name / git name without length is not rejected", "bad-names-accepted")
